@@ -26,7 +26,7 @@ func (n node) String() string {
 		return "x"
 	case "nil":
 		return "nil"
-	case "tnil", "tnil2":
+	case "tnil", "tnil2", "zalias", "nilPA":
 		return n.T
 	case "CL":
 		return "C(x)"
@@ -103,6 +103,13 @@ func (n node) build(path string, o *buildOpts) any {
 		return stackage.Cond("kw"+path, stackage.Ne, n.buildStack(path, o))
 	case "CA":
 		return stackage.Cond("kw"+path, stackage.Ge, StackAlias(n.buildStack(path, o)))
+	case "CSE": // a Condition over a Stack that was first built incomplete and completed afterwards: valid, but
+		// the error recorded by Cond is still there
+		return stackage.Cond("", stackage.Ne, n.buildStack(path, o)).SetKeyword("kw" + path)
+	case "zalias": // a zero-valued Stack alias: an element like any other leaf, not a Stack
+		return StackAlias{}
+	case "nilPA":
+		return (*StackAlias)(nil)
 	case "CCL":
 		return CondAlias(stackage.Cond("kw"+path, stackage.Eq, "E"+path))
 	case "CCS":
